@@ -440,8 +440,9 @@ bool qhashmurmur3_128(const void *data, size_t nbytes, void *retbuf) {
     h1 += h2;
     h2 += h1;
 
-    ((uint64_t *) retbuf)[0] = h1;
-    ((uint64_t *) retbuf)[1] = h2;
+    // retbuf is a plain byte buffer and may not be 8-byte aligned
+    memcpy(retbuf, &h1, sizeof(h1));
+    memcpy((unsigned char *) retbuf + sizeof(h1), &h2, sizeof(h2));
 
     return true;
 }
